@@ -89,7 +89,7 @@ def success_case(r, kind, state, api_mode):
         steps += [['accept', 30.0], ['establish'], ['wait_quiet', 1.0, 20.0]]
         for p, nh, m in api_routes:
             steps.append(['api', f'peer * announce route {p} next-hop {nh} med {m}'])
-        steps += [['wait_quiet', 1.0, 20.0], ['snapshot', 'before'], ['mark', 'reload'], ['reload', new_text], ['wait_quiet', 2.0, 20.0]]
+        steps += [['sleep', 0.5], ['wait_quiet', 1.0, 20.0], ['snapshot', 'before'], ['mark', 'reload'], ['reload', new_text], ['sleep', 0.5], ['wait_quiet', 2.0, 20.0]]
         if kind == 'neighbor-param':
             steps += [['accept', 40.0], ['mark', 'second'], ['establish'], ['wait_quiet', 2.0, 20.0]]
         steps += [['snapshot', 'after'], ['mark', 'end']]
@@ -98,7 +98,7 @@ def success_case(r, kind, state, api_mode):
         steps += [['accept', 30.0], ['establish'], ['wait_quiet', 1.0, 20.0]]
         for p, nh, m in api_routes:
             steps.append(['api', f'peer * announce route {p} next-hop {nh} med {m}'])
-        steps += [['wait_quiet', 1.0, 20.0], ['policy', 'reset'], ['eof'], ['sleep', 1.0], ['snapshot', 'before'], ['mark', 'reload'], ['reload', new_text], ['sleep', 2.0], ['policy', 'accept'], ['accept', 60.0], ['mark', 'second'], ['establish'], ['wait_quiet', 2.0, 20.0], ['snapshot', 'after'], ['mark', 'end']]
+        steps += [['sleep', 0.5], ['wait_quiet', 1.0, 20.0], ['policy', 'reset'], ['eof'], ['sleep', 1.0], ['snapshot', 'before'], ['mark', 'reload'], ['reload', new_text], ['sleep', 2.0], ['policy', 'accept'], ['accept', 60.0], ['mark', 'second'], ['establish'], ['wait_quiet', 2.0, 20.0], ['snapshot', 'after'], ['mark', 'end']]
     return {'config': cfg, 'steps': steps, 'vtimeout': 400.0, 'wall': 120.0, 'quantum': 0.0005, 'kind': kind, 'state': state, 'api_mode': api_mode, 'old': old, 'new': new, 'api_routes': api_routes, 'expect': 'success'}
 
 
@@ -136,12 +136,12 @@ def failure_cases(r, tier):
     cases.append(('binary-garbage', -1, '\x00\x01\x02{{{{ neighbor'))
     out = []
     for fault, line, text in cases:
-        steps = [['accept', 30.0], ['establish'], ['wait_quiet', 1.0, 20.0], ['api', 'peer * announce route 172.16.1.0/24 next-hop 192.0.2.2 med 9'], ['wait_quiet', 1.0, 20.0], ['snapshot', 'before'], ['mark', 'reload']]
+        steps = [['accept', 30.0], ['establish'], ['wait_quiet', 1.0, 20.0], ['api', 'peer * announce route 172.16.1.0/24 next-hop 192.0.2.2 med 9'], ['sleep', 0.5], ['wait_quiet', 1.0, 20.0], ['snapshot', 'before'], ['mark', 'reload']]
         if fault == 'file-removed':
             steps += [['remove_config'], ['reload']]
         else:
             steps += [['reload', text]]
-        steps += [['sleep', 3.0], ['snapshot', 'after'], ['mark', 'after-reload'], ['api', 'peer * announce route 172.16.50.0/24 next-hop 192.0.2.2 med 5'], ['wait_quiet', 1.5, 10.0], ['mark', 'end']]
+        steps += [['sleep', 3.0], ['snapshot', 'after'], ['mark', 'after-reload'], ['api', 'peer * announce route 172.16.50.0/24 next-hop 192.0.2.2 med 5'], ['sleep', 0.5], ['wait_quiet', 1.5, 10.0], ['mark', 'end']]
         out.append({'config': conf(old), 'steps': steps, 'vtimeout': 300.0, 'wall': 100.0, 'quantum': 0.0005, 'fault': fault, 'line': line, 'expect': 'failure-or-success', 'new': new, 'old': old, 'text': text})
     return out
 
@@ -206,8 +206,12 @@ def judge_success(res, case, rec):
     if 'end' not in marks or 'reload' not in marks:
         res.inconclusive.append(f'{cls}: scenario did not complete {rec["notes"]}')
         return
-    if 'after' in snaps and snaps['after']['reload_error'].strip():
-        res.violation(f'C17/valid-config-refused:{case["kind"]}', f'reload of a valid configuration failed: {snaps["after"]["reload_error"][-150:]}', wit, cls)
+    reloads = [e for e in rec['events'] if e['kind'] == 'config-reload' and e['t'] >= marks['reload']['t']]
+    if not reloads:
+        res.inconclusive.append(f'{cls}: Configuration.reload() was never called after the reload request')
+        return
+    if not reloads[0]['ok']:
+        res.violation(f'C17/valid-config-refused:{case["kind"]}', f'reload of a valid configuration failed: {reloads[0]["error"][-150:]}', wit, cls)
         return
     # the table the peer ends with: session continuity matters
     want = {canon(p): (nh, m) for p, nh, m in case['new']}
@@ -238,7 +242,10 @@ def judge_success(res, case, rec):
         what = 'removed' if all(canon(p) in [canon(x[0]) for x in case['old']] for p in extra) else 'unexpected'
         res.violation(f'C17/route-not-withdrawn-after-reload:{what}:{case["kind"]}:{case["state"]}', f'after the reload the peer still holds {extra[:3]}', wit, cls)
         return
-    wrong = [p for p in want if got[p] != want[p]]
+    collide = {canon(p) for p, _, _ in case['api_routes']} & {canon(p) for p, _, _ in case['new']}
+    if collide:
+        res.count('colliding-prefix-not-judged', len(collide))  # configuration and API both claim it: either value is defensible
+    wrong = [p for p in want if got[p] != want[p] and p not in collide]
     if wrong:
         api_p = {canon(p) for p, _, _ in case['api_routes']}
         field = 'nexthop' if got[wrong[0]][0] != want[wrong[0]][0] else 'attributes'
@@ -263,7 +270,12 @@ def judge_failure(res, case, rec):
             res.inconclusive.append(f'{cls}: scenario did not complete {rec["notes"]}')
         return
     before, after = snaps['before'], snaps['after']
-    failed = bool(after['reload_error'].strip())
+    t_reload = marks['reload']['t']
+    reloads = [e for e in rec['events'] if e['kind'] == 'config-reload' and e['t'] >= t_reload]
+    if not reloads:
+        res.inconclusive.append(f'{cls}: Configuration.reload() was never called after the reload request')
+        return
+    failed = not reloads[0]['ok']
     sess = rec['sessions'][0]
     t_reload = marks['reload']['t']
     t_after = marks['after-reload']['t']
@@ -279,6 +291,20 @@ def judge_failure(res, case, rec):
         res.ok(cls + ':still-valid', (case['fault'], 'valid'))
         return
     diffs = [k for k in ('neighbors', 'peers', 'fsm', 'routes', 'rib_out') if before[k] != after[k]]
+    if diffs == ['rib_out']:
+        # one mechanism has its own name whatever the fault which refused the file: a neighbor section which was
+        # parsed completely before the refusal has put its routes in the Adj-RIB-Out it shares (by name) with the
+        # running peer, nothing the old file announced is lost
+        newp = {p for p, _, _ in case['new']}
+        leaked_only = True
+        for k in before['rib_out']:
+            b, a = set(before['rib_out'][k]), set(after['rib_out'].get(k, []))
+            if b - a or not all(x.split()[0] in newp for x in a - b):
+                leaked_only = False
+        if leaked_only and set(before['rib_out']) == set(after['rib_out']):
+            wit['announced_between'] = len([m for m in sent_between if m[1] == rw.UPDATE])
+            res.violation('C17/refused-file-routes-reach-live-rib', f'routes of a refused file are in the Adj-RIB-Out of the running peer (fault {case["fault"]}): ' + str({k: sorted(set(after['rib_out'][k]) - set(before['rib_out'][k])) for k in before['rib_out']})[:200], wit, cls)
+            return
     if diffs:
         res.violation(f'C17/failed-reload-changed-state:{diffs[0]}:{case["fault"]}', f'a failed reload changed {diffs}: before {str(before[diffs[0]])[:160]} after {str(after[diffs[0]])[:160]}', wit, cls)
         return
